@@ -515,6 +515,9 @@ func (fc *funcCtx) oblige(st *State, kind, site, goal, desc string) {
 		// still count it: trivially true obligations are discharged syntactically
 	}
 	script := fc.e.buildScript(st.decls, st.facts, goal, true)
+	if os.Getenv("GOVC_DEBUG") != "" {
+		fmt.Fprintf(os.Stderr, "oblige %s/%s facts=%d script=%d path=%s\n", kind, site, len(st.facts), len(script), strings.Join(st.trace, ">"))
+	}
 	fc.e.addQuery(fc.name(kind, site), kind, shortKey(fc.key), desc, &Query{Script: script, Path: strings.Join(st.trace, ">"), Inputs: st.entryVals})
 }
 
